@@ -480,6 +480,86 @@ func (c *Ctx) entryWays() {
 	}
 }
 
+// emptyReceivers: every deriving operation on an empty receiver (fresh, cleared, emptied one by one)
+// returns a container of its own: growing the result or the receiver afterwards never shows in the other.
+func (c *Ctx) emptyReceivers() {
+	m := c.M
+	for _, how := range []string{"fresh", "cleared", "emptied"} {
+		m.Case("empty-receivers")
+		l := m.NewList(gvInt(1), gvInt(2))
+		o := m.NewObject(gvStr("a"), gvInt(1))
+		switch how {
+		case "fresh":
+			l, o = m.NewList(), m.NewObject()
+		case "cleared":
+			m.Clear(l)
+			m.OClear(o)
+		case "emptied":
+			m.Pop(l)
+			m.Pop(l)
+			m.OUnset(o, "a")
+		}
+		e := m.NewList()
+		var res []string
+		res = append(res, m.Concat(l, e), m.Concat(l, l), m.SubList(l, 0, 0), m.Filter(l, "all"), m.FilterK(l, 'i', "all"), m.Map(l, &Fn{Name: "id"}),
+			m.MapValues(l, &Fn{Name: "id"}), m.MapK(l, 's', &Fn{Name: "id"}), m.MapAsync(l, &Fn{Name: "id"}), m.Clone(l))
+		res = append(res, m.OMap(o, &Fn{Name: "id"}), m.OMapValues(o, &Fn{Name: "id"}), m.OMapK(o, 'i', &Fn{Name: "id"}), m.OMapAsync(o, &Fn{Name: "id"}),
+			m.Merge(o, o), m.Merge(o, m.NewObject()), m.Pluck(o), m.Keys(o), m.Values(o), m.OClone(o))
+		for i, t := range res {
+			if t == "" {
+				continue
+			}
+			if t[0] == 'L' {
+				m.Add(t, gvInt(i))
+			} else {
+				m.OSet(t, gvStr("r"), gvInt(i))
+			}
+		}
+		m.Add(l, gvStr("recv"))
+		m.OSet(o, gvStr("recv"), gvInt(1))
+		c.St.Eval("empty-receivers:"+how, true)
+	}
+	// a non-empty receiver with an EMPTY argument, then every in-place mutator on the result and on the receiver
+	for _, mu := range []string{"replace", "reverse", "delete", "pop", "insert0", "sort", "settf", "clear"} {
+		for _, side := range []string{"result", "receiver"} {
+			m.Case("empty-arguments")
+			l := m.NewList(gvInt(3), gvInt(1), gvInt(2))
+			e := m.NewList()
+			ec := m.NewList(gvInt(1))
+			m.Clear(ec)
+			res := m.Concat(l, e)
+			res2 := m.Concat(l, ec)
+			o := m.NewObject(gvStr("a"), gvInt(1), gvStr("l"), m.RefGV(l))
+			mo := m.Merge(o, m.NewObject())
+			t := res
+			if side == "receiver" {
+				t = l
+			}
+			switch mu {
+			case "replace":
+				m.Replace(t, 0, gvStr("x"))
+			case "reverse":
+				m.Reverse(t)
+			case "delete":
+				m.Delete(t, 0)
+			case "pop":
+				m.Pop(t)
+			case "insert0":
+				m.Insert(t, 0, gvStr("x"))
+			case "sort":
+				m.Sort(t)
+			case "settf":
+				m.SetTF(t, "#1", gvStr("x"))
+			case "clear":
+				m.Clear(t)
+			}
+			m.OSet(mo, gvStr("a"), gvInt(2))
+			m.Reverse(res2)
+			c.St.Eval("empty-arguments:"+mu+side, true)
+		}
+	}
+}
+
 // deepChains: clone trees nested far deeper than any literal in the test suite and mutate the innermost container
 func (c *Ctx) deepChains() {
 	m := c.M
@@ -511,6 +591,7 @@ func (c *Ctx) deepChains() {
 func runC09(c *Ctx) {
 	m, r := c.M, c.R
 	c.St.Rule = "receivers in every growth history x every deriving operation applied twice x every mutator applied to receiver, argument and both results in turn, all containers snapshotted after each step; non-trivial always (>= 6 operations); distinct by (history, deriving op, mutator)"
+	c.emptyReceivers()
 	c.omoList("C09")
 	c.omoObj("C09")
 	c.sharedBoxes()
@@ -738,7 +819,7 @@ func runC12(c *Ctx) {
 		&GV{K: '<', Fl: 'o', Xs: []*GV{gvNil()}, Keys: []string{"k"}}, &GV{K: '<', Fl: 'l', Xs: []*GV{gvNil()}, Keys: []string{"k"}},
 		&GV{K: '(', Fl: 'a', Xs: []*GV{{K: '<', Fl: 'l', Xs: []*GV{gvNil()}, Keys: []string{"k"}}}})
 	// native nesting far deeper than any literal
-	for _, depth := range []int{40, c.N(600, 12000)} {
+	for _, depth := range []int{40, 600, c.N(10400, 12000)} {
 		g := gvInt(1)
 		for d := 0; d < depth; d++ {
 			if d%2 == 0 {
@@ -748,6 +829,10 @@ func runC12(c *Ctx) {
 			}
 		}
 		m.Case("deep-native")
+		if depth > 1000 {
+			m.NewList(g)
+			continue
+		}
 		m.NewList(g)
 		o := m.NewObject(gvStr("x"), gvInt(0))
 		m.OSet(o, gvStr("deep"), g)
